@@ -235,3 +235,37 @@ func TestReplay(t *testing.T) {
 	t.Run("TestRandom", func(t *testing.T) { outerT = t; vstat.Replay(t, prop, "TestRandom", run) })
 	t.Run("TestStress", func(t *testing.T) { outerT = t; vstat.Replay(t, prop, "TestStress", runStress) })
 }
+
+// ---- regressions: minimal cases of defects this check found (fixed in /repo) -------------------
+
+// Close returned, then Add(a): Add used to ignore `closed`, the added instance was never closed.
+func TestRegAddAfterClose(t *testing.T) {
+	outerT = t
+	vstat.One(t, prop, Case{Ops: []Op{{K: kClose}, {K: kAdd}}}, run)
+}
+
+// Add racing Close: Close parked in the Close() of a, Add(b) arrives.
+func TestRegAddDuringClose(t *testing.T) {
+	outerT = t
+	vstat.One(t, prop, Case{Pre: []Op{{K: kGet}}, Ops: []Op{{K: kClose}, {K: kAdd, Id: 1}}}, run)
+}
+
+// Get(a) parked in its load, TryRemove(a) started: TryRemove used to dereference the nil value.
+func TestRegTryRemoveWhileLoading(t *testing.T) {
+	outerT = t
+	vstat.One(t, prop, Case{Ops: []Op{{K: kGet}, {K: kTryRm}}}, run)
+}
+
+// a cached; TryRemove(a) whose TryClose reports (true, err); Get(a) started meanwhile used to
+// block for ever on the entry left in state closing.
+func TestRegTryRemoveCloseError(t *testing.T) {
+	outerT = t
+	vstat.One(t, prop, Case{Pre: []Op{{K: kGet}}, Ops: []Op{{K: kTryRm}, {K: kGet}}, Try: []int{tryClosedErr}}, run)
+}
+
+// GO-7332 shape (the repo's own regression, here as a schedule): busy TryRemove reverts the
+// entry while two removers are parked on it.
+func TestRegBusyRevertTwoRemovers(t *testing.T) {
+	outerT = t
+	vstat.One(t, prop, Case{Pre: []Op{{K: kAdd}}, Ops: []Op{{K: kTryRm}, {K: kRemove}, {K: kRemove}}, Try: []int{tryBusy}}, run)
+}
